@@ -2,19 +2,20 @@
 # bin/eval_all_seeded.sh [name-prefix...] : re-evaluates every stored seeded change (and refactoring) against the quick checks of THIS
 # checkout of /verif: for each seeded/<name>/patch.diff a scratch worktree of /repo's HEAD is made under /tmp, the patch applied, the
 # change confirmed again (tests pass, demo fails with it and passes without it) and all 20 quick checks run against that worktree
-# (bin/eval_tree: /repo itself is never touched). Results are written to seeded/<name>/meta.json of this checkout. 3 at a time.
+# (bin/eval_tree: /repo itself is never touched). Results are written to seeded/<name>/meta.json of this checkout. 3 at a time (EVAL_PAR).
+# EVAL_CHECKS=targeted: for the breaking changes only the check of the property each one targets is run (refactorings: always all 20).
 HERE="$(cd "$(dirname "$0")/.." && pwd)"
 cd "$HERE"
 [ $# -eq 0 ] && set -- ""
 for pre in "$@"; do ls -d seeded/${pre}*/ 2>/dev/null; done | sort -u | while read d; do
   n=$(basename "$d"); [ -f "$d/patch.diff" ] && echo "$n"
-done | xargs -P 3 -I{} sh -c '
+done | xargs -P ${EVAL_PAR:-3} -I{} sh -c '
   n={}; wt=/tmp/ev_$n
   git -C /repo worktree add --detach $wt HEAD -f >/dev/null 2>&1 || exit 0
   if git -C $wt apply '"$HERE"'/seeded/$n/patch.diff 2>/dev/null; then
     mkdir -p $wt/MUTATION; cp '"$HERE"'/seeded/$n/demo.py '"$HERE"'/seeded/$n/notes.md '"$HERE"'/seeded/$n/equiv_check.py $wt/MUTATION/ 2>/dev/null
     pid=$(python3 -c "import json;m=json.load(open(\"'"$HERE"'/seeded/$n/meta.json\"));print(m.get(\"property\",\"-\"))")
-    if [ "$pid" = "-" ]; then '"$HERE"'/bin/refactor_eval.py $wt $n > /tmp/ev_$n.log 2>&1; else '"$HERE"'/bin/seeded_eval.py $wt $n $pid --tree > /tmp/ev_$n.log 2>&1; fi
+    if [ "$pid" = "-" ]; then '"$HERE"'/bin/refactor_eval.py $wt $n > /tmp/ev_$n.log 2>&1; else '"$HERE"'/bin/seeded_eval.py $wt $n $pid --tree $( [ "$EVAL_CHECKS" = "targeted" ] && echo "--checks=$pid" ) > /tmp/ev_$n.log 2>&1; fi
     echo "done $n: $(grep -E "caught by|alarms" /tmp/ev_$n.log | cut -c1-150)"
   else
     echo "PATCH DOES NOT APPLY: $n"
